@@ -17,7 +17,9 @@ EXPLANATION = (
     "other method mutates. C18.LOCKED: every read or write of them outside __init__ is in lock state 'held' "
     "(CFG typestate). C18.PAIR: lock released on all exits. C18.RETURN: a freshly constructed zone reaches a "
     "`return` only after being stored into the instance map, except on the one return that is guarded by the "
-    "documented no-cache condition (C18.NOCACHE). C18.BYPASS: instance()/nocache() never touch the maps. "
+    "documented no-cache condition (C18.NOCACHE). C18.KEYINJ: the key of every map / strong-cache access is built only from the "
+    "call's parameters, <parameter>.total_seconds(), constants and conditionals of those (no lossy conversion), and every "
+    "parameter takes part in it. C18.BYPASS: instance()/nocache() never touch the maps. "
     "C18.SINGLETON: every class with the singleton metaclass is instantiated by a module-level statement in "
     "its defining module (import lock), since the metaclass __call__ itself is unlocked. C18.EQ: every zone "
     "__eq__ returns NotImplemented on the foreign-type path, and the class resolves __ne__ (negation of ==), "
